@@ -485,8 +485,11 @@ impl Prop for C12 {
                             let a = strip(a);
                             exps[j].iter().any(|b| {
                                 let b = strip(b);
-                                let k = a.iter().zip(b.iter()).take_while(|(x, y)| x.0 == y.0 && x.1 == y.1).count();
-                                (0..k).any(|n| a[n].2 != b[n].2)
+                                // same keys in the same order, but encoded differently somewhere (overlapping
+                                // vs plain, or under a different modifier: the matcher strips modifiers and
+                                // re-interprets overlaps when it backtracks, sequence-backtrack-modcancel)
+                                let k = a.iter().zip(b.iter()).take_while(|(x, y)| x.0 == y.0).count();
+                                (0..k).any(|n| a[n].2 != b[n].2 || a[n].1 != b[n].1)
                             })
                         })
                 })
